@@ -33,7 +33,7 @@ def _lm_case(draw, tier, dense=False):
         # tables big enough that trie offsets leave the 8-bit range
         V, n = draw(st.sampled_from([(3, 4), (4, 4), (5, 4), (6, 3), (7, 3), (4, 3), (5, 3)]))
         # "mid": more than 256 trie nodes although every level pair still fits 8-bit offsets
-        profile = draw(st.sampled_from(["free", "free", "mid_a", "mid_b", "mid_c", "mid_c"]))
+        profile = draw(st.sampled_from(["free", "mid_c", "free", "mid_a", "free", "mid_b", "mid_c"]))
     else:
         V = draw(st.integers(1, 4))
         n = draw(st.sampled_from([1, 2, 2, 3, 3, 3, 4, 4]))
